@@ -30,7 +30,7 @@ pub const ALL: &[&str] = &[
 ];
 
 pub fn needs_cli(id: &str) -> bool {
-    matches!(id, "C02" | "C04" | "C10" | "C09" | "C11" | "C12" | "C14" | "C15" | "C16" | "C17" | "C18" | "C19")
+    matches!(id, "C02" | "C04" | "C10" | "C20" | "C09" | "C11" | "C12" | "C14" | "C15" | "C16" | "C17" | "C18" | "C19")
 }
 
 pub fn run(ctx: &mut Ctx) -> bool {
